@@ -96,10 +96,18 @@ def cont_circuit(rs):
     cv = scope[int(rs.randint(len(scope)))]
     k = int(rs.randint(2, 4))
     comps = []
-    for _ in range(k):
+    for ci_ in range(k):
         ls = []
         for v in scope:
-            if v == cv:
+            if v == cv and ci_ == 0:
+                # every continuous test has a histogram leaf with UNEQUAL bin widths and non-constant densities
+                from deeprob.spn.structure.leaf import Isotonic
+                nb_ = int(rs.randint(2, 5)); start = float(rs.randint(-4, 5))
+                widths = rs.permutation([0.5, 1.0, 1.5, 2.0])[:nb_]
+                dens = rs.randint(1, 9, size=nb_).astype(float); dens[int(rs.randint(nb_))] += 9.0
+                dens = np.round(dens / float(dens.sum()), 6); dens[-1] = 1.0 - float(dens[:-1].sum())   # the constructor wants them to sum to one
+                ls.append(Isotonic(v, densities=dens.tolist(), breaks=(start + np.concatenate([[0.0], np.cumsum(widths)])).tolist()))
+            elif v == cv:
                 ls.append(G.rand_leaf(rs, v, ["gauss", "unif", "iso"]))
             else:
                 ls.append(Bernoulli(v, float(rs.randint(1, 16) / 16.0)))
